@@ -217,6 +217,18 @@ def _series_dump(s):
     return [[int(t), float_ratio(v)] for t, v in zip(s.index, s.to_numpy())]
 
 
+def fit_horizon(case):
+    """what is passed as `fh` to the tuner's fit (and to the directly constructed forecaster): None,
+    relative steps, or an ABSOLUTE ForecastingHorizon of the time points cutoff + steps"""
+    if case["fit_fh"] is None:
+        return None
+    if case.get("fit_fh_abs"):
+        from sktime.forecasting.base import ForecastingHorizon
+        cut = case["off"] + len(case["y"]) - 1
+        return ForecastingHorizon([cut + h for h in case["fit_fh"]], is_relative=False)
+    return list(case["fit_fh"])
+
+
 def _script(case, y, X):
     """[(kind, kwargs)]: predict(fh1), update(ynew, xnew), cutoff, predict(fh2)."""
     import numpy as np
@@ -233,8 +245,19 @@ def _script(case, y, X):
         vals = [sc["xfut"][p - n] for p in range(lo, hi)]
         return pd.DataFrame({"a": np.asarray(vals, dtype=float)},
                             index=pd.RangeIndex(off + lo, off + hi))
+    up = sc.get("update_params", True)
+    if sc.get("kind") == "stored":
+        # the horizon given at fit is the only one the tuner ever sees: update, predict() WITHOUT fh,
+        # cutoff, predict(<the same horizon again>), predict() without fh
+        hi = n + m + max(case["fit_fh"])
+        same = fit_horizon(case)
+        return [("update", {"y": ynew, "X": xrows(n, n + m), "update_params": up}),
+                ("predict", {"fh": None, "X": xrows(n + m, hi)}),
+                ("cutoff", {}),
+                ("predict", {"fh": same, "X": xrows(n + m, hi)}),
+                ("predict", {"fh": None, "X": xrows(n + m, hi)})]
     return [("predict", {"fh": sc["fh1"], "X": xrows(n, n + max(sc["fh1"]))}),
-            ("update", {"y": ynew, "X": xrows(n, n + m)}),
+            ("update", {"y": ynew, "X": xrows(n, n + m), "update_params": up}),
             ("cutoff", {}),
             ("predict", {"fh": sc["fh2"], "X": xrows(n + m, n + m + max(sc["fh2"]))})]
 
@@ -247,7 +270,7 @@ def _run_script(f, script):
             if kind == "predict":
                 out.append({"series": _series_dump(f.predict(kw["fh"], X=kw["X"]))})
             elif kind == "update":
-                f.update(kw["y"], kw["X"], update_params=True)
+                f.update(kw["y"], kw["X"], update_params=kw.get("update_params", True))
                 out.append({"done": True})
             else:
                 c = f.cutoff
@@ -363,13 +386,13 @@ def _run_impl(case):
         y0 = pd.Series(y.to_numpy()[::-1] + 1.0, index=y.index)
         g0 = g if case["prior"] == "same" else tuner()
         try:
-            g0.fit(y0, X, fh=case["fit_fh"], **dict(case.get("fit_params") or {}))
+            g0.fit(y0, X, fh=fit_horizon(case), **dict(case.get("fit_params") or {}))
         except (ValueError, TypeError):
             pass
     del c07.LOG[:]
     fitkw = dict(case.get("fit_params") or {})
     try:
-        g.fit(y, X, fh=case["fit_fh"], **fitkw)
+        g.fit(y, X, fh=fit_horizon(case), **fitkw)
     except (ValueError, TypeError) as e:
         return {"err": type(e).__name__}
     log = [{"who": c["who"], "op": c["op"],
@@ -398,7 +421,7 @@ def _run_impl(case):
     # the tuner after fit, and a forecaster constructed directly with the best parameters
     out["answers"] = _run_script(g, _script(case, y, X))
     d = clone(base).set_params(**out["best_params"])
-    d.fit(y, X, fh=case["fit_fh"])
+    d.fit(y, X, fh=fit_horizon(case))
     out["direct"] = _run_script(d, _script(case, y, X))
     return out
 
@@ -547,8 +570,12 @@ def oracle(case, out):
             return "refit-not-equal-to-directly-constructed-forecaster: tuner %s direct %s" % (
                 ans, direct)
     else:
-        for a, (kind, _) in zip(ans, [("predict", 0), ("update", 0), ("cutoff", 0),
-                                      ("predict", 0)]):
+        kinds = ["update", "predict", "cutoff", "predict", "predict"] \
+            if case["script"].get("kind") == "stored" else ["predict", "update", "cutoff", "predict"]
+        if len(ans) != len(kinds):
+            return "no-refit-did-not-raise-NotFittedError: %d answers for %d operations" % (
+                len(ans), len(kinds))
+        for a, (kind, _) in zip(ans, [(k, 0) for k in kinds]):
             if kind == "cutoff":
                 if "not_fitted" not in a:
                     return "no-refit-cutoff-reported: cutoff answered %s instead of raising " \
@@ -707,8 +734,25 @@ def gen_cases(rng, tier):
         fit_params = None
         if fam == "double" and rng.random() < 0.3:
             fit_params = {"boost": rng.choice([-3, -1, 1, 2, 5])}
+        # the horizon given to the tuner's fit: None, relative steps, or an ABSOLUTE horizon; and how the
+        # tuner is used afterwards: with fresh horizons at predict ("classic"), or relying on the one
+        # given at fit ("stored": update, predict() without fh, predict(<the same horizon>))
+        fit_fh = rng.choice([None, sp["fh"]])
+        fit_abs, kind = False, "classic"
+        u = rng.random()
+        if u < 0.2:
+            fit_fh = sorted(rng.sample(range(m + 1, m + 4), rng.randint(1, 2)))   # beyond the update
+            fit_abs, kind = True, "stored"
+        elif u < 0.3 and fit_fh is not None:
+            kind = "stored"
+        elif u < 0.4 and fit_fh is not None:
+            fit_abs = True
+        # update_params=False: only where the model's `Update` is exact for it (the recording double
+        # ignores the flag; NaiveForecaster(mean) keeps its fitted mean: C03 / C09 own that semantics)
+        only_doubles = fam == "double" or (fam == "pipe" and base["inner"]["type"] == "double")
+        update_params = rng.random() < 0.6 or not only_doubles
         cases.append({
-            "fit_params": fit_params,
+            "fit_params": fit_params, "fit_fh_abs": fit_abs,
             "kind": "tune", "search": search, "n_iter": n_iter, "seed": seed, "rs": rs, "fam": fam,
             "base": base, "grid": grid, "form": form,
             "prior": rng.choice([None, None, None, None, None, None, None, "same", "other",
@@ -718,9 +762,10 @@ def gen_cases(rng, tier):
             "X": [rng.randint(-2, 4) for _ in range(n)] if with_x else None,
             "strategy": rng.choice(["refit", "refit", "update"]),
             "metric": rng.choice(TUNE_METRICS), "refit": rng.random() < 0.75,
-            "fit_fh": rng.choice([None, sp["fh"]]),
+            "fit_fh": fit_fh,
             "script": {"fh1": fh1, "fh2": fh2, "ynew": [rng.randint(1, 9) for _ in range(m)],
-                       "xfut": [rng.randint(-2, 4) for _ in range(m + 4)]}})
+                       "kind": kind, "update_params": update_params,
+                       "xfut": [rng.randint(-2, 4) for _ in range(12)]}})
     return cases
 
 
@@ -748,6 +793,14 @@ def shrink(case):
     if c.get("fit_params"):
         d = dict(c)
         d["fit_params"] = None
+        yield d
+    if c["script"].get("kind") == "stored" and len(c["fit_fh"]) > 1:
+        d = dict(c)
+        d["fit_fh"] = c["fit_fh"][-1:]
+        yield d
+    if not c["script"].get("update_params", True):
+        d = dict(c)
+        d["script"] = dict(c["script"], update_params=True)
         yield d
     # drop a sub-grid, a value, a key
     if len(subs) > 1:
@@ -790,7 +843,8 @@ def shrink(case):
     if len(sp["fh"]) > 1:
         d = dict(c)
         d["splitter"] = dict(sp, fh=sp["fh"][:1])
-        d["fit_fh"] = None if c["fit_fh"] is None else sp["fh"][:1]
+        if not c.get("fit_fh_abs") and c["script"].get("kind") != "stored":
+            d["fit_fh"] = None if c["fit_fh"] is None else sp["fh"][:1]
         yield d
     if c.get("X") is not None:
         d = dict(c)
@@ -894,6 +948,13 @@ def _c_script(case):
     cut1 = off + n - 1
     cut2 = cut1 + m
     ynew = clist(["(%s, %s)" % (cz(off + n + i), cq(Fraction(v))) for i, v in enumerate(sc["ynew"])])
+    if sc.get("kind") == "stored":
+        # what the horizon given at fit denotes when predict is called after the update: the same time
+        # points if it was absolute, the new cutoff + steps if it was relative
+        times = [(cut1 if case.get("fit_fh_abs") else cut2) + h for h in case["fit_fh"]]
+        xs = xr(n + m, n + m + max(case["fit_fh"]))
+        pred = "(OpPredict %s %s)" % (czlist(times), xs)
+        return clist(["(OpUpdate %s %s)" % (ynew, xr(n, n + m)), pred, "OpCutoff", pred, pred])
     return clist([
         "(OpPredict %s %s)" % (czlist([cut1 + h for h in sc["fh1"]]), xr(n, n + max(sc["fh1"]))),
         "(OpUpdate %s %s)" % (ynew, xr(n, n + m)),
@@ -976,6 +1037,10 @@ def distribution(cases, results):
             d["space=%s" % c.get("form", "dict")] += 1
             d["prior-search=%s" % c.get("prior")] += 1
             d["fit-keywords=%s" % bool(c.get("fit_params"))] += 1
+            d["fit-horizon=%s" % ("none" if c["fit_fh"] is None else
+                                  "absolute" if c.get("fit_fh_abs") else "relative")] += 1
+            d["tuner-script=%s" % c["script"].get("kind", "classic")] += 1
+            d["update_params=%s" % c["script"].get("update_params", True)] += 1
             keysets = set(tuple(sorted(p)) for p in o["params"])
             d["candidates-name-different-parameters=%s" % (len(keysets) > 1)] += 1
             d["empty-dict-candidate=%s" % ({} in o["params"])] += 1
